@@ -231,6 +231,9 @@ func (g *FnGen) applyContract(s *State, fc *FuncContract, ct *callTarget, args [
 		n := g.fresh(heapName(k)+"_c", "(Array Ref "+k+")")
 		s.heaps[k] = n
 		fr = append(fr, g.frameAxiomPats(pats, k, old, n, pre.next, nil))
+		if c := closedHeapAxiom(n, k, s.next); c != "" {
+			fr = append(fr, c)
+		}
 	}
 	var gl []string
 	for name := range ghosts {
